@@ -197,6 +197,15 @@ def do_case(case):
         else:
             obj.add_bootstraps(map(lambda d_: d_, items))
         rows.append({'how': how, 'rows_added': int(len(obj.bootstraps)) - n0_, 'first_column': [float(x) for x in list(obj.bootstraps[k0])[n0_:]]})
+    # the loss classes of norms.py on one-dimensional operands: the observation of this case against the modelled values at the truth
+    # (a perfect fit) and against perturbed / permuted / scalar operands
+    ob_ = np.asarray([float(x) for x in par.observation], dtype=float)
+    vecs = [(ob_, ob_.copy()), (ob_, ob_ * 1.25 + 0.5), (ob_ * 1.25 + 0.5, ob_), (ob_, ob_[::-1].copy()), (np.array([3.0]), np.array([-1.5])),
+            (np.array([0.0, -2.0, 7.5, 1e-3]), np.array([1.0, 2.0, -0.5, 1e-3]))]
+    r['norms'] = [{'a': a_.tolist(), 'b': b_.tolist(), 'l1': float(pg.L1Norm().compute(a_, b_)), 'l2': float(pg.L2Norm().compute(a_, b_)),
+                   'linf': float(pg.LInfNorm().compute(a_, b_)), 'lnorm1': float(pg.LNorm(1).compute(a_, b_)),
+                   'lnorm_inf': float(pg.LNorm(np.inf).compute(a_, b_))}
+                  for a_, b_ in vecs]
     r['plural'] = {'singular': summary(pa), 'list': summary(pb), 'iterator': summary(pg_), 'rows': rows,
                    'min_loss': float(min([par.loss_inferred] + [x_.loss_inferred for x_ in srcs]))}
     return r
